@@ -1020,6 +1020,26 @@ def run_C03(rng, tier):
         c2 = Case.simple(d, p2 + s, {"view": name, "regime": "prefix-suffix"})
         pairs.append((c1, c2, K, sl, None))
         cases += [c1, c2]
+    # degenerate windows after different prefixes (deterministic): flat windows (max = min, zero variance, no change) and, for CoG, windows that sum to
+    # zero -- the guarded branches (0/0, zero denominator) are where a view keeps or mis-initialises a history-dependent output
+    for name in names:
+        if name == "Pfe":
+            continue
+        for n in (2, 3, 4):
+            d = mk_view(rng, name, n=n)
+            if is_heavy(d):
+                continue
+            K = 2 * n if C03_K[name] == "2n" else n + C03_K[name]
+            sufs = [[F(5)] * (K + 1) + [F(2)] * (K + 2) + [F(3), F(2)] + [F(2)] * (K + 1)]
+            if name == "Cog":
+                sufs.append({2: [2, -2, 5, -5, 1, 3, -3, 4], 3: [1, 2, -3, 4, -1, -3, 2, 1, -3], 4: [1, 2, 3, -6, 1, 2, 3, -6, 5]}[n])
+                sufs = [[F(x) for x in s_] for s_ in sufs]
+            for s_ in sufs:
+                p1, p2 = [F(7), F(1), F(-3)], [F(-4), F(9), F(2), F(11), F(6)]
+                c1 = Case.simple(d, p1 + s_, {"view": name, "regime": "degenerate-suffix"})
+                c2 = Case.simple(d, p2 + s_, {"view": name, "regime": "degenerate-suffix"})
+                pairs.append((c1, c2, K, len(s_), None))
+                cases += [c1, c2]
     # arbitrarily LONG prefixes: one history has seen more than 2^12 (thorough: 2^16) values before the common suffix, the other almost none;
     # anything that is rebuilt, re-based or re-summed every so many updates / evictions leaks an old value only there
     lpairs = []
